@@ -480,6 +480,7 @@ var protTargets = []string{
 	"/secret/api/x", "/secret/api/", "/internal/api/y", "/papi/z", "/papi/secret/s1.txt", "/secret/s1.txt.gz", "/public/p1.txt", "/", "/index.html", "/public/readme.md", "/public/tpl.html",
 	"/noindex/priv/n1.txt", "/noindex/priv/", "/noindex/priv/more/n2.txt", "/noindex/PRIV/n1.txt", "/noindex//priv/n1.txt", "/noindex/./priv/n1.txt", "/noindex/priv/?archive=zip", "/noindex/?archive=tar", "/noindex/?archive=tar.gz", "/noindex/", "/noindex/inner/../priv/n1.txt",
 	"/secret/fcgi/x", "/secret/fcgi/x.php", "/SECRET/fcgi/x", "/pfcgi/../secret/fcgi/y", "/secret/fcgi/", "/falias", "/internal/fcgi/z", "/pfcgi/q", "/pfcgi/secret/s1.txt", "//secret/fcgi/x", "/secret/./fcgi/x",
+	"/public/p1", "/public/p1.txt", "/secret/page", "/secret/s1",
 	"/secret/s1.txt?x=1", "/secret/s1.txt/", "/secret/deep", "/secret/deep/", "/secret\\s1.txt", "/secret/s1.txt%00", "/secret;/s1.txt", "/.//secret/s1.txt",
 }
 
@@ -501,8 +502,8 @@ func genSite(t *rapid.T) Site {
 		a.Realm = rapid.IntRange(0, 3).Draw(t, "realm") == 0
 		a.Htpasswd = rapid.IntRange(0, 2).Draw(t, "htpasswd") == 0
 		s.Auth = append(s.Auth, a)
-		if rapid.IntRange(0, 3).Draw(t, "tworules") == 0 {
-			b := AuthRule{User: "bob", Pass: "builder", Resources: []string{rapid.SampledFrom([]string{"/secret/deep", "/internal", "/secret/pub", "/secret/api"}).Draw(t, "res2")}}
+		if rapid.IntRange(0, 2).Draw(t, "tworules") == 0 {
+			b := AuthRule{User: "bob", Pass: "builder", Resources: []string{rapid.SampledFrom([]string{"/secret/deep", "/internal", "/secret/pub", "/secret/api", "/secret/page.html", "/public/p1.txt", "/secret/s1.txt"}).Draw(t, "res2")}}
 			b.Htpasswd = rapid.IntRange(0, 2).Draw(t, "htpasswd2") == 0
 			if rapid.IntRange(0, 2).Draw(t, "excl2") == 0 {
 				b.Exclude = []string{rapid.SampledFrom([]string{"/secret/deep/open", "/internal/sub"}).Draw(t, "excl2p")}
